@@ -92,6 +92,12 @@ class View:
         return True
 
 
+import operator as _operator  # noqa: E402
+
+_OPERATOR_FUNCS = {n: getattr(_operator, n) for n in ("add", "sub", "mul", "floordiv", "truediv", "mod", "lshift", "rshift", "and_", "or_", "xor", "lt", "le", "gt", "ge", "eq", "ne",
+                                                       "neg", "pos", "not_", "invert", "truth", "pow")}
+
+
 class LocalFunc:
     """A function defined inside the evaluated body: called with the defining evaluator's environment as its closure."""
     def __init__(self, node: ast.FunctionDef, owner: "Evaluator"):
@@ -191,6 +197,11 @@ class Evaluator:
             base = self.ev(e.value)
             if isinstance(base, View) and isinstance(e.slice, ast.Slice) and e.slice.step is None:
                 return base.sub(self.ev(e.slice.lower) if e.slice.lower is not None else None, self.ev(e.slice.upper) if e.slice.upper is not None else None)
+            if isinstance(base, Obj) and "_items" in base.__dict__ and not isinstance(e.slice, ast.Slice):
+                try:
+                    return base.__dict__["_items"][self.ev(e.slice)]
+                except (IndexError, TypeError, KeyError):
+                    raise ModelRaise(Outcome("raise", "IndexError", e))
             if isinstance(base, dict) and not isinstance(e.slice, ast.Slice):
                 k = self.ev(e.slice)
                 if k in base:
@@ -212,6 +223,8 @@ class Evaluator:
             if e.id in self.env:
                 return self.env[e.id]
             raise Unsupported(e, "unbound")
+        if isinstance(e, ast.Attribute) and isinstance(e.value, ast.Name) and e.value.id == "operator" and "operator" not in self.env and e.attr in _OPERATOR_FUNCS:
+            return _OPERATOR_FUNCS[e.attr]
         if isinstance(e, ast.Attribute):
             k = ast.unparse(e)
             if k in self.env:
@@ -236,9 +249,24 @@ class Evaluator:
                 return {self.ev(k): self.ev(v) for k, v in zip(e.keys, e.values)}
             except TypeError:
                 raise Unsupported(e)
-        if isinstance(e, ast.Call) and not isinstance(e.func, (ast.Name, ast.Attribute)) or (isinstance(e, ast.Call) and isinstance(e.func, ast.Name) and isinstance(self.env.get(e.func.id), BoundRef)):
+        if isinstance(e, ast.Call) and isinstance(e.func, ast.Attribute) and e.func.attr == "get" and 1 <= len(e.args) <= 2 and not e.keywords:
+            try:
+                dv = self.ev(e.func.value)
+            except Unsupported:
+                dv = None
+            if isinstance(dv, dict):
+                k = self.ev(e.args[0])
+                return dv[k] if k in dv else (self.ev(e.args[1]) if len(e.args) == 2 else None)
+        if isinstance(e, ast.Call) and not isinstance(e.func, (ast.Name, ast.Attribute)) or (isinstance(e, ast.Call) and isinstance(e.func, ast.Name) and (isinstance(self.env.get(e.func.id), BoundRef) or (e.func.id in self.env and self.env[e.func.id] in _OPERATOR_FUNCS.values()))):
             # calling a value: a bound method reference taken earlier (table dispatch)
             fv = self.ev(e.func)
+            if fv in _OPERATOR_FUNCS.values() and not e.keywords:
+                try:
+                    return fv(*[self.ev(a) for a in e.args])
+                except ZeroDivisionError:
+                    raise ModelRaise(Outcome("raise", "ZeroDivisionError", e))
+                except (TypeError, ValueError):
+                    raise Unsupported(e)
             if isinstance(fv, BoundRef):
                 self.env["__recv__"] = fv.obj
                 fake = ast.copy_location(ast.Call(func=ast.Attribute(value=ast.Name(id="__recv__", ctx=ast.Load()), attr=fv.attr, ctx=ast.Load()), args=e.args, keywords=e.keywords), e)
@@ -276,6 +304,20 @@ class Evaluator:
             except (OverflowError, ValueError, TypeError):
                 raise Unsupported(e, "conversion error on the model")
             raise Unsupported(e)
+        if isinstance(e, ast.Call) and isinstance(e.func, ast.Name) and e.func.id in ("next", "iter") and 1 <= len(e.args) <= 2 and not e.keywords and e.func.id not in self.env:
+            # sequences are modelled as tuples: next(<generator expression>[, default]) is the first element (iter() is the identity)
+            seq = self.ev(e.args[0])
+            if not isinstance(seq, (tuple, range)):
+                raise Unsupported(e)
+            if e.func.id == "iter":
+                return tuple(seq)
+            if not isinstance(e.args[0], (ast.GeneratorExp, ast.Call)):
+                raise Unsupported(e, "next() on a named iterator would need iterator state")
+            if len(seq):
+                return seq[0]
+            if len(e.args) == 2:
+                return self.ev(e.args[1])
+            raise ModelRaise(Outcome("raise", "StopIteration", e))
         if isinstance(e, ast.Call) and isinstance(e.func, ast.Name) and e.func.id == "memoryview" and len(e.args) == 1 and not e.keywords:
             b = self.ev(e.args[0])
             if isinstance(b, (bytes, bytearray)):
